@@ -54,6 +54,32 @@ theorem early_noPress (cfg : HTConfig) {q : List Queued} (h : NoPress q) :
   cases cfg <;> simp [earlyTrigger, skips, any_noPress h, permissive_noPress h,
     customRelease_noPress _ h, customExcept_noPress _ h]
 
+/-- [t8:while-down] the events before the key's own release are among the queued ones -/
+theorem mem_whileDown (c : Coord) : ∀ {q : List Queued} {x : Queued}, x ∈ whileDown c q → x ∈ q
+  | [], _, h => by simp [whileDown] at h
+  | s :: rest, x, h => by
+    simp only [whileDown] at h
+    split at h
+    · simp at h
+    · rcases List.mem_cons.mp h with rfl | h'
+      · simp
+      · exact List.mem_cons_of_mem _ (mem_whileDown c h')
+
+/-- a key that has not been released: the whole queue is from while it was down -/
+theorem whileDown_of_no_release (c : Coord) : ∀ (q : List Queued),
+    q.find? (fun s => s.ev == .release c) = none → whileDown c q = q
+  | [], _ => rfl
+  | s :: rest, h => by
+    simp only [List.find?_cons] at h
+    split at h
+    · cases h
+    · rename_i hne
+      simp only [whileDown, hne, Bool.false_eq_true, if_false]
+      rw [whileDown_of_no_release c rest h]
+
+theorem whileDown_noPress (c : Coord) {q : List Queued} (h : NoPress q) : NoPress (whileDown c q) :=
+  fun x hx => h x (mem_whileDown c hx)
+
 /-- `handle_hold_tap` when no other key has been pressed: the decision depends only on the
 countdown and on whether this key's release is in the queue. -/
 theorem handleHoldTap_noPress (w : Waiting) (cfg : HTConfig) (q : List Queued) (h : NoPress q) :
@@ -70,7 +96,7 @@ theorem handleHoldTap_noPress (w : Waiting) (cfg : HTConfig) (q : List Queued) (
   unfold handleHoldTap
   split
   · rfl
-  · simp only [early_noPress cfg h, isCorrespondingRelease]
+  · simp only [early_noPress cfg (whileDown_noPress _ h), isCorrespondingRelease]
     rfl
 
 /-- `tick_wt` of a tap-hold waiting state: the queue and the action queue are untouched, the
@@ -138,7 +164,7 @@ theorem handleHoldTap_ne_noOp (w : Waiting) (cfg : HTConfig) (q : List Queued) :
   unfold handleHoldTap
   split
   · simp
-  · have he := earlyTrigger_ne_noOp cfg q
+  · have he := earlyTrigger_ne_noOp cfg (whileDown w.coord q)
     split
     · rename_i a sk heq
       simp only [heq] at he
